@@ -110,3 +110,24 @@ pub proof fn lemma_nextid_results(files: Seq<Seq<char>>, fs: Map<Seq<char>, Seq<
 }
 
 } // verus!
+verus! {
+// ---- C01 at tree level: which IDs each replaced file received ------------------------------------------
+pub open spec fn n_of(w: World, cfg: Config, p: Seq<char>) -> int { n_missing_all(found(w.orig[p], cfg)) }
+pub open spec fn edited_with(w: World, cfg: Config, p: Seq<char>, first: int) -> Seq<u8> {
+    edited(w.orig[p], found(w.orig[p], cfg), consec(first, n_of(w, cfg, p)))
+}
+// every replaced file holds its original with consecutive IDs alloc[p] .. alloc[p]+n(p), all handed out by the
+// counter since `start`; ranges of different files are disjoint; every other in-scope file is untouched
+pub open spec fn alloc_inv(w: World, cfg: Config, start: int) -> bool {
+    &&& forall|p: Seq<char>| #[trigger] w.alloc.dom().contains(p) ==>
+            w.protected.contains(p) && n_of(w, cfg, p) > 0 && start <= w.alloc[p] && w.alloc[p] + n_of(w, cfg, p) <= w.counter
+            && w.fs[p] == edited_with(w, cfg, p, w.alloc[p])
+    &&& forall|p: Seq<char>| #[trigger] w.protected.contains(p) && !w.alloc.dom().contains(p) ==> w.fs[p] == w.orig[p]
+    &&& forall|p: Seq<char>, q: Seq<char>| #[trigger] w.alloc.dom().contains(p) && #[trigger] w.alloc.dom().contains(q) && p != q ==>
+            w.alloc[p] + n_of(w, cfg, p) <= w.alloc[q] || w.alloc[q] + n_of(w, cfg, q) <= w.alloc[p]
+}
+pub open spec fn all_edited(w: World, cfg: Config, k: int) -> bool {
+    forall|i: int| 0 <= i < k && readable(#[trigger] w.files[i]) ==>
+        is_token_insertion(w.orig[w.files[i]], found(w.orig[w.files[i]], cfg), w.fs[w.files[i]])
+}
+}
